@@ -298,17 +298,20 @@ EXH = lambda depth, sample, **ov: dict(overrides=dict({'GenDepth': str(depth)}, 
 STAKE_X = {'minfrozen': 1}
 NBIND_X = {'minfrozen': 1, 'warmup': 1}
 P = {'GenPending': 'TRUE'}
+# reorganisations at the grain of the chain database (single disconnects / connects that handler steps interleave with)
+MS = {'GenMulti': 'TRUE', 'MultiStep': 'TRUE'}
+MSMC = {'MultiStep': 'TRUE'}
 
 PLAN_C01 = dict(
-    mc=dict(quick=[('MC_Sync.cfg', 'MC_Sync.tla', {'MaxBlocks': '6'})],
-            thorough=[('MC_Sync.cfg', 'MC_Sync.tla', {'MaxBlocks': '8'}),
-                      ('MC_Ledger.cfg', 'MC_Ledger.tla', {'MaxBlocks': '6'})]),
+    mc=dict(quick=[('MC_Sync.cfg', 'MC_Sync.tla', {'MaxBlocks': '6'}), ('MC_Sync.cfg', 'MC_Sync.tla', dict(MSMC, MaxBlocks='6'))],
+            thorough=[('MC_Sync.cfg', 'MC_Sync.tla', {'MaxBlocks': '8'}), ('MC_Sync.cfg', 'MC_Sync.tla', dict(MSMC, MaxBlocks='7')),
+                      ('MC_Ledger.cfg', 'MC_Ledger.tla', {'MaxBlocks': '6'}), ('MC_Ledger.cfg', 'MC_Ledger.tla', dict(MSMC, MaxBlocks='6'))]),
     gens=[gen('Gen_Pay.cfg', 'MC_Pay.tla',
-              quick=[SIM(120, 12), SIM(60, 14, **P)],
-              thorough=[EXH(6, 4000), SIM(1500, 14), SIM(1500, 16, **P)]),
+              quick=[SIM(120, 12), SIM(60, 14, **P), SIM(60, 16, **MS)],
+              thorough=[EXH(6, 4000), SIM(1500, 14), SIM(1500, 16, **P), SIM(1500, 18, **MS), SIM(800, 18, **dict(MS, **P))]),
           gen('Gen_Stake.cfg', 'MC_Stake.tla', universe_extra=STAKE_X,
-              quick=[SIM(60, 14)],
-              thorough=[SIM(1000, 16), SIM(500, 16, **P)]),
+              quick=[SIM(60, 14), SIM(30, 16, **MS)],
+              thorough=[SIM(1000, 16), SIM(500, 16, **P), SIM(800, 18, **MS)]),
           gen('Gen_NBind.cfg', 'MC_NBind.tla', universe_extra=NBIND_X,
               quick=[SIM(40, 12)],
               thorough=[SIM(600, 14)])],
@@ -333,8 +336,8 @@ PLAN_C10 = dict(
     mc=dict(quick=[('MC_Ledger.cfg', 'MC_Ledger.tla', {'MaxBlocks': '5'})],
             thorough=[('MC_Ledger.cfg', 'MC_Ledger.tla', {'MaxBlocks': '6'})]),
     gens=[gen('Gen_Stake.cfg', 'MC_Stake.tla', universe_extra=STAKE_X,
-              quick=[SIM(120, 16), SIM(60, 16, **P)],
-              thorough=[EXH(6, 3000), SIM(2500, 18), SIM(1000, 18, **P)]),
+              quick=[SIM(120, 16), SIM(60, 16, **P), SIM(40, 18, **MS)],
+              thorough=[EXH(6, 3000), SIM(2500, 18), SIM(1000, 18, **P), SIM(1000, 20, **MS)]),
           gen('Gen_NBind.cfg', 'MC_NBind.tla', universe_extra=NBIND_X,
               quick=[SIM(60, 12), SIM(30, 12, **P)],
               thorough=[SIM(1000, 14), SIM(500, 14, **P)])],
@@ -355,11 +358,11 @@ KINDS['C06'] = ['quiescent-not-on-best', 'synced-height', 'total-balance', 'utxo
 CR = {'Crashes': 'TRUE'}
 PLAN_C06 = dict(
     level='model_checking',
-    mc=dict(quick=[('MC_Crash.cfg', 'MC_Sync.tla', {'MaxBlocks': '5'})],
-            thorough=[('MC_Crash.cfg', 'MC_Sync.tla', {'MaxBlocks': '6'})]),
+    mc=dict(quick=[('MC_Crash.cfg', 'MC_Sync.tla', {'MaxBlocks': '5'}), ('MC_Crash.cfg', 'MC_Sync.tla', dict(MSMC, MaxBlocks='5'))],
+            thorough=[('MC_Crash.cfg', 'MC_Sync.tla', {'MaxBlocks': '6'}), ('MC_Crash.cfg', 'MC_Sync.tla', dict(MSMC, MaxBlocks='6'))]),
     gens=[gen('Gen_Pay.cfg', 'MC_Pay.tla',
-              quick=[SIM(140, 14, **CR), SIM(60, 14, **dict(CR, **P))],
-              thorough=[EXH(6, 3000, **CR), SIM(2000, 16, **CR), SIM(1000, 16, **dict(CR, **P))]),
+              quick=[SIM(140, 14, **CR), SIM(60, 14, **dict(CR, **P)), SIM(60, 16, **dict(CR, **MS))],
+              thorough=[EXH(6, 3000, **CR), SIM(2000, 16, **CR), SIM(1000, 16, **dict(CR, **P)), SIM(1500, 18, **dict(CR, **MS))]),
           gen('Gen_Stake.cfg', 'MC_Stake.tla', universe_extra=STAKE_X,
               quick=[SIM(60, 14, **CR)],
               thorough=[SIM(1000, 16, **dict(CR, **P))])],
@@ -386,8 +389,8 @@ PLAN_C07 = dict(
               quick=[SIM(140, 14, **IMPORT_ONLY), SIM(60, 16, **LIFE)],
               thorough=[SIM(2000, 16, **IMPORT_ONLY), SIM(1000, 18, **LIFE), SIM(600, 16, **dict(IMPORT_ONLY, ImportBatch='1'))]),
           gen('Gen_Imp.cfg', 'MC_Imp.tla',
-              quick=[SIM(150, 16, **IMPORT_ONLY), SIM(900, 18, **dict(IMPORT_ONLY, GenWant='"import-reorg"'))],
-              thorough=[SIM(3000, 18, **IMPORT_ONLY), SIM(1500, 20, **dict(IMPORT_ONLY, Crashes='TRUE')),
+              quick=[SIM(150, 16, **IMPORT_ONLY), SIM(900, 18, **dict(IMPORT_ONLY, GenWant='"import-reorg"')), SIM(60, 18, **dict(IMPORT_ONLY, **MS))],
+              thorough=[SIM(3000, 18, **IMPORT_ONLY), SIM(1500, 20, **dict(IMPORT_ONLY, Crashes='TRUE')), SIM(1500, 20, **dict(IMPORT_ONLY, **MS)),
                         SIM(12000, 18, **dict(IMPORT_ONLY, GenWant='"import-reorg"')),
                         SIM(6000, 20, **dict(IMPORT_ONLY, GenWant='"import-reorg"', ImportBatch='2'))]),
           gen('Gen_Stake.cfg', 'MC_Stake.tla', universe_extra=STAKE_X,
